@@ -61,3 +61,22 @@ st('htp_connp_REQ_CONNECT_PROBE_DATA', ['C16', 'C09', 'C01'], C16S + 'pending by
                   dec='connp->in_current_len - connp->in_current_read_offset'),
           1: dict(assigns='pos', inv=['pos <= len'], dec='len - pos'),
           2: dict(assigns='pos', inv=['pos <= len', 'mstart <= pos'], dec='len - pos')})
+
+st('htp_connp_REQ_BODY_DETERMINE', ['C06', 'C09', 'C05', 'C01'], 'framing decision -> body state; identity framing enters the body state with bytes owed == Content-Length > 0 (what REQ_BODY_IDENTITY requires), zero length and no-body go to FINALIZE, unknown coding is an error')
+UNITS.append(U(name='htp_connp_REQ_IGNORE_DATA_AFTER_HTTP_0_9', props=['C09', 'C01'], kind='contract', src=['htp_request.c'], enforce='htp_connp_REQ_IGNORE_DATA_AFTER_HTTP_0_9',
+               contracts_inc=INC, harness=H % 'htp_connp_REQ_IGNORE_DATA_AFTER_HTTP_0_9', defs=D, min_obl=20, assumes=A[:1],
+               sub='HTTP/0.9 drain: consumes the whole chunk, counts it, flags extra data, DATA with the chunk exhausted'))
+UNITS.append(U(name='htp_connp_REQ_IDLE', props=['C04', 'C09', 'C10', 'C01'], kind='contract', src=['htp_request.c', 'htp_list.c'], enforce='htp_connp_REQ_IDLE',
+               replace=['htp_connp_tx_create/contract_site_htp_connp_tx_create', 'htp_tx_state_request_start/contract_site_htp_tx_state_request_start'],
+               contracts_inc=INC, harness=H % 'htp_connp_REQ_IDLE', defs={'quick': {'CHUNK_CAP': 4096, 'LCAP': 8}, 'thorough': {'CHUNK_CAP': 1048576, 'LCAP': 64}}, min_obl=30,
+               sub='a request transaction is created only when a byte is available; it is appended last with index = old size (arrival order); creation failure is an error with nothing appended',
+               assumes=A[:1] + ['htp_connp_tx_create (enforced by its own unit) and htp_tx_state_request_start replaced by contracts']))
+
+st('htp_connp_REQ_BODY_CHUNKED_LENGTH', ['C06', 'C09', 'C03', 'C01'], 'chunk-size line: ends at the first LF; incomplete => DATA_BUFFER with the chunk exhausted and nothing decided (segmentation-safe); complete => whole line counted in message length, size parsed, >0 => chunk data with exactly that many bytes owed, 0 => trailers, <0 => error',
+   replace=['htp_connp_req_consolidate_data', 'htp_connp_req_clear_buffer', 'htp_chomp', 'htp_parse_chunked_length/contract_site_htp_parse_chunked_length', 'htp_log'],
+   loops={'count': 1, 0: dict(
+       assigns='connp->in_next_byte, connp->in_current_read_offset, connp->in_stream_offset',
+       inv=['connp->in_current_read_offset >= __CPROVER_loop_entry(connp->in_current_read_offset)', 'connp->in_current_read_offset <= connp->in_current_len',
+            'connp->in_stream_offset == __CPROVER_loop_entry(connp->in_stream_offset) + (connp->in_current_read_offset - __CPROVER_loop_entry(connp->in_current_read_offset))',
+            '(gk < CHUNK_CAP && (int64_t) gk >= __CPROVER_loop_entry(connp->in_current_read_offset) && (int64_t) gk < connp->in_current_read_offset) ==> connp->in_current_data[gk] != LF'],
+       dec='connp->in_current_len - connp->in_current_read_offset')})
